@@ -417,6 +417,33 @@ func runC17(r *rt.Run) {
 			}
 		}
 	}
+	// long series whose every ordinate has a long decimal text (tiny magnitudes
+	// with a full mantissa, subnormals, large exponents): sizes either side of
+	// powers of two, as LineString / Polygon ring / MultiLineString member /
+	// MultiPoint; any size estimate per ordinate is exceeded on every position
+	{
+		gens := c17LongGens
+		r.Bounds["long_text_series"] = "5 ordinate generators x sizes 2^k-1, 2^k, 2^k+1 (k = 5..10) x 5 kinds"
+		for gi, g := range gens {
+			for k := 5; k <= 10; k++ {
+				for d := -1; d <= 1; d++ {
+					n := 1<<k + d
+					objs := c17LongObjs(g.f, n)
+					for oi, ob := range objs {
+						w.States++
+						w.Evals++
+						w.Nontriv++
+						if what, exp, got := checkSerial(ob.o, ob.typ, ob.depth); what != "" {
+							gi, n, oi := gi, n, oi
+							w.Fail("serial-long-text-series-"+what, func() (rt.Case, string, string) {
+								return rt.Case{Kind: "serial", Op: "LongText", X: map[string]string{"what": what, "gen": fmt.Sprint(gi), "n": fmt.Sprint(n), "kind": fmt.Sprint(oi), "name": g.name}}, trunc(exp), trunc(got)
+							})
+						}
+					}
+				}
+			}
+		}
+	}
 	// foreign members nested just below, at and beyond 10000 levels (the limit
 	// of encoding/json, which neither Parse nor RFC 8259 has), in every member
 	// position; parsed and through NewFeature
@@ -484,9 +511,57 @@ func c17DeepDocs() []c17Deep {
 	return out
 }
 
+type c17LongObj struct {
+	o     geojson.Object
+	typ   string
+	depth int
+}
+
+var c17LongGens = []struct {
+			name string
+			f    func(i int) (float64, float64)
+		}{
+			{"tiny-full-mantissa", func(i int) (float64, float64) {
+				return float64(i+1) * 1.2345678901234567e-40, -float64(2*i+1) * 7.654321098765432e-41
+			}},
+			{"subnormal", func(i int) (float64, float64) { return float64(i+1) * 4.9406564584124654e-324, -float64(i+3) * 1.2345e-310 }},
+			{"e-300", func(i int) (float64, float64) { return 1.2345678901234567e-300 * float64(i+1), 9.87654321e-200 / float64(i+1) }},
+			{"in-range-17-digits", func(i int) (float64, float64) {
+				return 100.12345678901234 + float64(i)*1e-13, -45.123456789012345 - float64(i)*1e-14
+			}},
+			{"huge", func(i int) (float64, float64) { return 1.2345678901234567e300 * float64(i+1), -1.7976931348623157e308 }},
+		}
+
+func c17LongObjs(f func(i int) (float64, float64), n int) []c17LongObj {
+	pts := make([]geometry.Point, n)
+	for i := range pts {
+		pts[i].X, pts[i].Y = f(i)
+	}
+	ring := append(append([]geometry.Point{}, pts...), pts[0])
+	return []c17LongObj{
+		{geojson.NewLineString(geometry.NewLine(pts, nil)), "LineString", 2},
+		{geojson.NewPolygon(geometry.NewPoly(ring, [][]geometry.Point{ring}, nil)), "Polygon", 3},
+		{geojson.NewMultiLineString([]*geometry.Line{geometry.NewLine(pts[:2], nil), geometry.NewLine(pts, nil)}), "MultiLineString", 3},
+		{geojson.NewMultiPoint(pts), "MultiPoint", 2},
+		{geojson.NewMultiPolygon([]*geometry.Poly{geometry.NewPoly(ring, nil, nil)}), "MultiPolygon", 4},
+	}
+}
+
 func evalC17(c *rt.Case) (bool, string, string, error) {
 	if c.Kind != "serial" {
 		return false, "", "", fmt.Errorf("not mine")
+	}
+	if c.Op == "LongText" {
+		var gi, n, oi int
+		fmt.Sscan(c.X["gen"], &gi)
+		fmt.Sscan(c.X["n"], &n)
+		fmt.Sscan(c.X["kind"], &oi)
+		if gi < 0 || gi >= len(c17LongGens) || n < 2 || n > 1<<16 || oi < 0 || oi > 4 {
+			return false, "", "", fmt.Errorf("bad indexes")
+		}
+		ob := c17LongObjs(c17LongGens[gi].f, n)[oi]
+		what, exp, got := checkSerial(ob.o, ob.typ, ob.depth)
+		return what != "", trunc(exp), what + ": " + trunc(got), nil
 	}
 	if c.Op == "Deep" {
 		var di int
